@@ -167,6 +167,19 @@ def extra_oracle(case, ctx):
             signac.Project(d).open_job(id=want).init()
             if stat_sig(fn) != sig:
                 fails.append("re-init of %r rewrote its valid state point file (mtime/inode/bytes changed)" % (sp,))
+            # the postcondition of init() holds after EVERY init(): if the file disappears (the directory emptied by
+            # hand) a further init() through the same, already initialised handle puts it back - or raises
+            if n == 0:
+                os.remove(fn)
+                try:
+                    job.init()
+                    ok_again = os.path.isfile(fn) and tagged(json.load(open(fn))) == tagged(sp)
+                    if not ok_again:
+                        fails.append("init() through an initialised handle returned normally although the state point file of "
+                                     "%r is missing afterwards" % (sp,))
+                except Exception:
+                    job2 = signac.Project(d).open_job(copy.deepcopy(sp))
+                    job2.init()
         names = sorted(os.listdir(project.workspace))
         exp = sorted(W.ref_id(sp) for sp in sps[: case["ninit"]])
         if names != exp:
